@@ -250,6 +250,10 @@ func run(c *vt.Ctx, cs Case, scratch string) (dev *vt.Deviation, srcCounts, dstC
 	if cs.Func == "HashFile" {
 		return
 	}
+	// the verification reads as the administrator (the copy itself ran as the file system's user)
+	if cs.Dst == "MemFS+user" {
+		_ = dstBase.SetUser(dstBase.Idm().AdminUser())
+	}
 	got, err := dstBase.ReadFile(dstPath)
 	if err != nil {
 		dev = mk("destination", "nil error but the destination cannot be read: "+err.Error())
@@ -338,6 +342,11 @@ func TestCheck(t *testing.T) {
 							if specialBits(src) && specialBits(dst) {
 								// where both sides keep them, half of the cases carry special bits as well
 								p12 |= []uint32{0, 0o4000, 0o2000, 0o6000, 0, 0o1000, 0, 0o4000}[idx%8]
+							}
+							if src == "MemFS+user" && p12&0o400 == 0 {
+								// a source its owner cannot read: the copy is rightly refused, nothing to check
+								c.Label("skipped:source-unreadable-for-the-user")
+								continue
 							}
 							base := Case{Func: fn, Src: src, Dst: dst, Size: size, Perm: p12, Hasher: hs}
 							base.Pre = fn != "HashFile" && vt.Hash64(fmt.Sprintf("%+v", base))%2 == 0
